@@ -223,6 +223,14 @@ def judge(run, cases, res):
                             theorem="Reload.Cases (panic)")
         if c["fam"] == "cfg":
             s1, s2, s4, s5 = row[6:10]
+            s6 = row[10] if len(row) > 10 else -1
+            if s6 >= 0:
+                site = op_site(c["ops"][s6])
+                run.failing({"kind": "retried-change-not-applied", "site": site}, [shrink_cfg(c, s6)],
+                            "case %d op %d (%s): the endpoints operation before it wrote the changed file and returned the failed reload; this retry over the "
+                            "same files returned without error with reloads enabled, but made neither a successful reload nor (Plus) successful API pushes - "
+                            "NGINX keeps running the old servers: %s" % (cid, s6, site, json.dumps(c["obs"][s6]["log"])[:300]),
+                            theorem="Reload.Cases.retry_ok (C12: no change left unapplied)")
             if s5 >= 0:
                 site = op_site(c["ops"][s5])
                 bad = [e for e in c["obs"][s5]["log"] if e.get("mis") or e.get("unpushed")]
